@@ -19,6 +19,9 @@ func (e *executor) other(t []string) (string, bool) {
 	if r, ok := e.dialOp(t); ok {
 		return r, true
 	}
+	if r, ok := e.dialVerifyOp(t); ok {
+		return r, true
+	}
 	if r, ok := e.uriOp(t); ok {
 		return r, true
 	}
